@@ -19,7 +19,8 @@ from ..cfg import CFG
 from ..ledger import POOL_MOD, PoolModel
 from ..model import (AnalysisError, FuncInfo, Repo, call_name, dotted, norm,
                      walk_no_nested)
-from .c15 import (SCOPE_NOTE, _call_sites, _seg_clear, ledger_rule, short)
+from .c15 import (SCOPE_NOTE, _call_sites, _conn_provenance, _seg_clear,
+                  ledger_rule, short)
 
 
 def _calls(g: CFG, n, name: str) -> bool:
@@ -498,6 +499,7 @@ def run(repo: Repo, ctx) -> None:
 
     _r6(repo, ctx, pm)
     _r7(repo, ctx, pm)
+    _r8(repo, ctx, pm)
 
 
 def _r7(repo: Repo, ctx, pm) -> None:
@@ -538,6 +540,53 @@ def _r7(repo: Repo, ctx, pm) -> None:
                f'suppressed with a live waiter, {readers} pass it over, '
                f'and the request is never handed a connection',
                acq.loc, sample=f'{blk}.suppressed = False dominates')
+
+
+def _r8(repo: Repo, ctx, pm) -> None:
+    """A block that gives a connection away while requests are queued on
+    it registers that demand: a connection that was idle (stolen from the
+    stack) implies no waiter; a connection handed back by its holder does
+    not, so that hand-over must put the block on the waitlist when it is
+    left with nothing."""
+    from ..absint import Facts, closed_edges
+    ctx.floor('C16.R8', 1)
+    st = repo.find_method(pm.pool.qualname, '_schedule_transfer')
+    if st is None:
+        raise AnalysisError('C16.R8: _schedule_transfer not found')
+    n_sites = 0
+    for f, g, nid, call in _call_sites(pm, st.name):
+        if len(call.args) < 2:
+            continue
+        k, why = _conn_provenance(pm, f, g, nid, call.args[1])
+        n_sites += 1
+        if k == 'stolen':
+            ctx.ob('C16.R8', f'{short(f)}:transfer-of-idle@L'
+                   f'{call.lineno - f.node.lineno}', True, loc=f.loc,
+                   sample=f'idle connection ({why}): no waiter on '
+                          f'{norm(call.args[0])}', nontrivial=False)
+            continue
+        frm = norm(call.args[0])
+        adds = [n.id for n in g.nodes if n.kind == 'stmt' and isinstance(
+            n.ast, ast.Assign) and isinstance(
+            n.ast.targets[0], ast.Subscript) and norm(
+            n.ast.targets[0].value).endswith('_waitlist') and norm(
+            n.ast.targets[0].slice) == frm]
+        F = Facts({f'{frm}.count_conns()': False,
+                   f'{frm}.count_waiters()': True}, f.node)
+        left = g.reachable([nid], avoid=adds,
+                           avoid_edges=closed_edges(g, F))
+        ok = bool(adds) and g.exit not in left
+        ctx.ob('C16.R8', f'{short(f)}:transfer-of-released@L'
+               f'{call.lineno - f.node.lineno}:requeues', ok,
+               f'{short(f)} gives away a connection that its holder just '
+               f'handed back ({why}) without lining `{frm}` up on the '
+               f'waitlist when it is left with no connection and queued '
+               f'requests: blocks that keep re-entering the waitlist are '
+               f'served first forever and those requests never return',
+               f.loc, sample=f'{frm} without connections and with '
+                             f'waiters -> waitlist')
+    if n_sites < 3:
+        raise AnalysisError(f'C16.R8: only {n_sites} transfer sites found')
 
 
 def _r6(repo: Repo, ctx, pm) -> None:
